@@ -3,7 +3,7 @@
    generic SSZ model (Ssz/SszCore.v); the per-type tie of zrnt's ~155 types to their schemas is the reflection
    obligation GenSszCheck.all_types_ok over the descriptions regenerated from the Go source on every run. *)
 From Coq Require Import String NArith List.
-From V Require Import Ssz.SszCore Ssz.SszProofs.
+From V Require Import Ssz.SszCore Ssz.SszProofs Ssz.SszDefault.
 Import ListNotations.
 Local Open Scope N_scope.
 
@@ -14,6 +14,15 @@ Theorem C04_roundtrip : forall t, wf_ty t = true -> forall v,
   deserialize t (serialize t v) = Some v.
 Proof. exact deser_ser. Qed.
 Print Assumptions C04_roundtrip.
+
+(* the default value of every type is a value of the type and round-trips (zero-initialised objects) *)
+Theorem C04_default_value : forall t, has_type t (default_value t) = true.
+Proof. exact default_has_type. Qed.
+Print Assumptions C04_default_value.
+Theorem C04_default_roundtrip : forall t, wf_ty t = true -> len_N (serialize t (default_value t)) < 2 ^ 32 ->
+  deserialize t (serialize t (default_value t)) = Some (default_value t).
+Proof. exact default_roundtrip. Qed.
+Print Assumptions C04_default_roundtrip.
 
 (* the declared fixed length is the number of bytes written *)
 Theorem C04_fixed_length : forall t v n, fixed_size t = Some n -> has_type t v = true -> len_N (serialize t v) = n.
